@@ -36,6 +36,30 @@ class Ctx:
                                  depth=r["depth"], wall_s=round(r["wall"], 1)))
         return r
 
+    def mc_parts(self, module, cfg, nparts, timeout=3000, heap="3g"):
+        """scenario enumeration split over nparts TLC processes (constants Part / NParts in the cfg)"""
+        from concurrent.futures import ThreadPoolExecutor
+        base = open(os.path.join(vlib.SPEC, cfg)).read()
+        cdir = os.path.join(vlib.OUT, "tlc")
+        os.makedirs(cdir, exist_ok=True)
+
+        def one(k):
+            cp = os.path.join(cdir, "%s_part%d.cfg" % (cfg[:-4], k))
+            with open(cp, "w") as f:
+                f.write(base.replace("Part = 0", "Part = %d" % k).replace("NParts = 1", "NParts = %d" % nparts))
+            return vlib.run_tlc(module, cp, workers=1, timeout=timeout, heap=heap,
+                                outfile=os.path.join(cdir, "%s_%s_part%d.out" % (module, cfg[:-4], k)))
+
+        with ThreadPoolExecutor(nparts) as ex:
+            rs = list(ex.map(one, range(nparts)))
+        for r in rs:
+            if r["rc"] != 0 or r["violation"]:
+                raise Infra("TLC run %s/%s failed or the SPEC violates the property (rc=%s):\n%s\n(see %s)" % (module, cfg, r["rc"], r["tail"], r["out"]))
+        self.states += sum(r["distinct"] for r in rs)
+        self.transitions += sum(r["states"] for r in rs)
+        self.mc_runs.append(dict(module=module, cfg=cfg, parts=nparts, wall_s=round(max(r["wall"] for r in rs), 1)))
+        return [r["out"] for r in rs]
+
     # ---- A: generation
     def gen_edges(self, module, cfg, timeout=1100, heap="8g", limit=None, **kw):
         r = vlib.run_tlc(module, cfg, workers=1, timeout=timeout, heap=heap, **kw)
